@@ -126,6 +126,18 @@ Checks(g, run) ==
                     /\ Last(vis[i].path) = vis[i].node
                     /\ ValidActs(g, vis[i].path, vis[i].acts)),
     subset |-> Chk(Len(vis) > 0, vn \subseteq reach),
+    \* the crate's own visitors: StateRecorder holds the last state of every visit (in visiting order when one
+    \* thread visits, as a bag otherwise), PathRecorder the SET of visited paths (states and actions)
+    recorders |-> Chk("recorded" \in DOMAIN run,
+                 LET rs == run.recorded.states
+                     rp == run.recorded.paths IN
+                 /\ Len(rs) = Len(vis)
+                 /\ IF cfg.threads = 1 THEN rs = [i \in DOMAIN vis |-> vis[i].node]
+                    ELSE \A x \in {rs[i] : i \in DOMAIN rs} \cup vn :
+                           Cardinality({i \in DOMAIN rs : rs[i] = x}) = Cardinality({i \in DOMAIN vis : vis[i].node = x})
+                 /\ {[path |-> rp[i].path, acts |-> rp[i].acts] : i \in DOMAIN rp}
+                      = {[path |-> vis[i].path, acts |-> vis[i].acts] : i \in DOMAIN vis}
+                 /\ \A i, j \in DOMAIN rp : i # j => rp[i] # rp[j]),
     once |-> Chk(a_once, \A i, j \in DOMAIN vis : i # j => vis[i].node # vis[j].node),
     complete |-> Chk(a_complete,
                  /\ vn = reach
